@@ -90,6 +90,21 @@ class C09(Prop):
             ctx.traces += len(lines)
         for i in (1, 200, 300):
             ctx.sample({"op": lines[i][:100], "impl": impl[i]})
+        # exhaustive step-level comparison: crc(byte, reg) for ALL 2^16 registers x 256 bytes, by chunk digests
+        if ctx.model_ok:
+            step = 4096
+            ch = [f"crc_step_digest {lo} {lo + step}" for lo in range(0, 65536, step)]
+            di = ctx.run_impl(exe, ch, "crc-step")
+            dm = ctx.run_model(ch)
+            ctx.evaluations += 65536 * 256
+            ctx.stat("step:pairs", 65536 * 256)
+            for ln, a, b in zip(ch, di, dm):
+                if a != b:
+                    lo = int(ln.split()[1])
+                    ws = [f"crc_step {r} {bb}" for r in range(lo, lo + step) for bb in (0, 1, 0x80, 0xFF, rng.randrange(256))]
+                    ctx.compare("crc-step", ws, ctx.run_impl(exe, ws, "crc-step"), ctx.run_model(ws),
+                                oracle=lambda l, x: "register step differs from the M17 CRC step (see impl_eq_spec)", sig=lambda l: "reg" + l.split()[1])
+            ctx.exhaustive = True
         # exhaustive error-class sweep on frames
         frames = [[0] * 30, [0xFF] * 30]
         for _ in range(2 if quick else 30):
@@ -109,7 +124,6 @@ class C09(Prop):
                 ctx.violate(f"crc-sweep:{kind}:{f[3]}:{f[4]}", f"{int(f[1])} undetected errors on a 30-byte frame; first: {kind} at {f[3]} / {f[4]}",
                             {"stream": "crc-sweep", "ops": [ln], "reply": r})
         ctx.sample({"op": sw[0][:60], "reply(cases undetected kind p q)": out[0]})
-        ctx.exhaustive = False
 
 
 PROP = C09()
